@@ -43,22 +43,43 @@ RULE = ("seeded generator: rule lists (1-7 rules) over a small per-case universe
         "entry created and evicted meanwhile (exactly one lookup runs at a time: deterministic) - and stress cases: 4-12 goroutines x "
         "12 rounds (thorough 60) asking 10-20 keys of a cold rule set of 150-300 rules at the same instant (spin barrier, staggered); "
         "thorough also runs the class under -race. Every answer is compared with the reference evaluator, a never-asked rule set and the "
-        "LTS of model/C09_Conc.v run on the observed schedule.")
+        "LTS of model/C09_Conc.v run on the observed schedule. "
+        "Rule files (text): engine cases are written as rule FILES by the generator (rules between blank and comment lines, inline comments, "
+        "tabs / \\r / \\f / NBSP / ideographic space around names and fields, CRLF) and go through NewACLEngineFromString = ParseTextRules ; Compile "
+        "on both sides (the Coq model parses the same bytes); file cases feed acl.ParseTextRules alone with generated files (rule lines with "
+        "1-3 fields incl. fields that trim to nothing, parentheses / Unicode / invalid UTF-8 inside fields, every line of a pool of 28 "
+        "malformed lines, every empty/blank/filled combination of 1-3 fields, 4 fields, byte-level fuzz lines over the alphabet of the "
+        "pattern) and compare rules, line numbers and the reported error line with the model AND with an independent reading of the line "
+        "grammar (python re on bytes + own TrimSpace). net.IP.String / HostInfo.String cases: all 256 zero/non-zero patterns of the eight "
+        "IPv6 groups (every position and length of zero runs, ties), groups with 1-4 hex digits, dotted-decimal digit-count boundaries, "
+        "4-byte vs v4-mapped forms and near misses of the mapping, nil and lengths other than 4 / 16; the model's rendering is compared "
+        "byte for byte, the harness checks on the implementation that no rendering contains '|', that equal renderings mean equal "
+        "addresses and that net.ParseIP reads the rendering back.")
 ASSUMPTIONS = [
-    "host names and patterns are ASCII and no query label starts with 'xn--' (idna.ToUnicode is then the identity; read in x/net/idna, not modelled)",
+    "host names and patterns are ASCII and no query label starts with 'xn--' (idna.ToUnicode is then the identity; read in x/net/idna, not "
+    "modelled). ENFORCED, not only assumed: the generator asserts it on every case and the Go harness asserts on every case that all rule "
+    "fields and names are ASCII, that no label starts with xn-- and that idna.ToUnicode returns the lower-cased name unchanged "
+    "(a case outside the grammar is reported as 'assumption: ...' instead of being compared)",
     "geoip:/geosite: rules need a database and are outside the property's grammar clause: not modelled, not generated",
-    "net.IP.String() never contains '|' and renders two addresses alike only if they are equal after To4 normalisation "
-    "(hypotheses of C09_key_injective / C09_cache_invisible; sampled by the harness on every generated address)",
+    "net.IP.String() is modelled (model/C09_IPString.v: <nil>, ?hex, dotted decimal, RFC 5952 text as net/netip of go1.25 prints it) and the "
+    "two facts the cache theorems need (no '|'; equal renderings only for addresses equal after To4) are PROVED of the model "
+    "(C09_ip_string_nobar / _injective / _decodes); the model is tied to Go's String() by the ipstr cases; the standard library itself "
+    "is not under test and cannot be mutated through the overlay",
     "hashicorp/golang-lru is abstracted as a finite map with an arbitrary eviction oracle (strictly more behaviours than any LRU); "
     "its Get/Add are atomic (library mutex)",
     "a Match call touches shared state only in Cache.Get and Cache.Add, and Add is handed the final scan result by value "
     "(step relation of model/C09_Conc.v; tied to the code by gate schedules that suspend lookups between their Get and their Add)",
     "outbound values handed to Compile are not the zero value of their type (the engine passes non-nil outbounds)",
-    "ParseTextRules (regexp line parser) is not modelled; the harness checks that it returns the generated fields",
+    "ParseTextRules is modelled on bytes (model/C09_Text.v); the language of linePattern is transcribed by hand (covered regexp features: "
+    "^ $ without (?m), ASCII-only \\w and \\s of RE2 (no \\v), negated class [^,] incl. newline and U+FFFD-per-invalid-byte decoding, greedy "
+    "+ * ?, capture groups with unset = \"\", non-capturing groups; the pattern uses nothing else) - Go's regexp engine is trusted to "
+    "implement that language and is compared on every generated file",
+    "strings.TrimSpace is modelled as stripping valid UTF-8 encodings of unicode.IsSpace code points (table copied from Go's unicode "
+    "tables) at both ends; strings.ToLower inside Compile stays ASCII-only (rule fields that reach Compile are ASCII, enforced)",
 ]
 TRUSTED = ["modelled rather than verified: extras/outbounds/acl/{compile,matchers}.go, the hijack/default part of extras/outbounds/acl.go and the "
            "net/netip text parsers they call (hand transcription in coq/model/C09_ACL.v)"]
-PER_SHARD = 28
+PER_SHARD = 36
 EXTRA_TARGETS = ["corr/C09_Corr.vo"]
 
 DOMS = ["example.com", "google.co.uk", "a.b.c.org", "localhost", "x.y", "xn.io", "my-site.net", "q.example.com"]
@@ -409,7 +430,8 @@ def ref_parse(text):
     return rules, None
 
 
-FW = [b"", b"", b" ", b"\t", b"  ", b"\xc2\xa0", b"\xe3\x80\x80", b" \t", b"\x0b", b"\xe2\x80\x88 ", b"\xc2\x85", b"\x0c"]
+FW = [b"", b"", b" ", b"\t", b"  ", b"\xc2\xa0", b"\xe3\x80\x80", b" \t", b"\x0b", b"\xe2\x80\x88 ", b"\xc2\x85", b"\x0c", b"\xe2\x80\xa9", b"\xe1\x9a\x80\xe2\x81\x9f",
+      b"\xe2\x80\x80\xe2\x80\x8a", b"\xe2\x80\xaf"]
 WS1 = [b"", b"", b" ", b"\t", b" \t ", b"\r", b"\x0c", b"  "]
 F_ADDR = [b"1.2.3.4", b"10.0.0.0/8", b"suffix:example.com", b"*.example.com", b"all", b"*", b"2001:db8::/32", b"geoip:cn", b"a(b)c",
           b"x y", b"\xe4\xbe\x8b\xe3\x81\x88.jp", b"\xf0\x9f\x98\x80", b"\xff\xfe", b"\xa0x", b"x\xe2\x80", b"(", b")", b"))", b"a|b", b"::1", b"\xc2\xa0\xa0"]
@@ -421,7 +443,9 @@ COMMENTS = [b"# comment", b"   # a(b)", b"#", b"##", b"\t#x(y", b"# \xe4\xbe\x8b
 BAD = [b"a(b,)", b"a(,b)", b"a()", b"a(b,c,d,e)", b"a\x0b(x)", b"(x)", b"a(x) y", b"a x", b"\xc3\xa9(x)", b"a(x", b"ab c(x)", b"a\xc2\xa0(x)",
        b"a(x)\xc2", b"a(b,,c)", b"a(b, ,c,)", b"a-b(x)", b"a.b(x)", b"a(x),", b"a", b"a(", b")", b"a)x(", b"a(x)\x85", b",", b"a(,)", b"a (  ", b"a(x)(",
        b"\xef\xbb\xbfa(x)"]
-FUZZ = [b"a", b"b", b"1", b"_", b" ", b"\t", b"(", b")", b",", b"#", b"\r", b"\x0b", b"\xc2\xa0", b"\xe3\x80\x80", b"\xff", b"\xc2", b"x", b"(", b")", b","]
+FUZZ = [b"a", b"b", b"1", b"_", b" ", b"\t", b"(", b")", b",", b"#", b"\r", b"\x0b", b"\xc2\xa0", b"\xe3\x80\x80", b"\xff", b"\xc2", b"x", b"(", b")", b",",
+        b"\x00", b"\x1f", b"\x7f", b"\xe2\x80\xa8", b"\xe1\x9a\x80", b"\xe2\x81\x9f", b"\xe2\x80\x8b", b"\xef\xbb\xbf", b"\xe2\x80\xaf", b"\x85", b"\xa0",
+        b"\xe2\x80", b"\x80", b"Z", b"0", b"\x0c"]
 
 
 def rule_line(rng, ob, fields, comment=True):
@@ -444,7 +468,7 @@ def rule_line(rng, ob, fields, comment=True):
 def gen_file(rng):
     mode = rng.random()
     lines = []
-    n = rng.randint(0, 10)
+    n = rng.choice([0, 1, 2, 3, 4, 5, 6, 7, 8, 9, 10, 3, 5, 8])
     for _ in range(n):
         r = rng.random()
         if mode < 0.8 or r < 0.75:
@@ -465,6 +489,10 @@ def gen_file(rng):
     text = b"\n".join(lines)
     if rng.random() < 0.5:
         text += b"\n"
+    return file_case(text)
+
+
+def file_case(text):
     rules, err = ref_parse(text)
     c = {"k": "file", "text": text.hex()}
     if err is None:
@@ -472,6 +500,28 @@ def gen_file(rng):
     else:
         c["wanterr"] = [err[0]]
     return c
+
+
+def fixed_file_cases():
+    """every line of the BAD pool between two rule lines (a file stops at its first bad line), and every way to leave
+    one to three fields empty / blank / filled (plus four fields): the places where a change of one quantifier of the
+    pattern shows"""
+    out = []
+    for bad in BAD:
+        out.append(file_case(b"a(x)\n\n" + bad + b"\nb(y, tcp)\n"))
+    import itertools
+    for k in (1, 2, 3):
+        for fs in itertools.product([b"x", b"", b" "], repeat=k):
+            out.append(file_case(b"# c\nob (" + b",".join(fs) + b")"))
+    for fs in ([b"x"] * 4, [b"x", b"", b"y", b"z"], [b" "] * 4):
+        out.append(file_case(b"ob(" + b",".join(fs) + b")\n"))
+    # comments, blank lines and line ends
+    out.append(file_case(b"\n".join(COMMENTS + BLANKS) + b"\na(x)#\r\n#\n"))
+    out.append(file_case(b"a(x) # one # two\nb(y)## c(z)\n\t#\nc(#)\n"))
+    out.append(file_case(b"a(x)\r\nb(y)\r\n\r\n# c\r\nc(z , tcp , 1.1.1.1 )\r\n"))
+    out.append(file_case(b""))
+    out.append(file_case(b"\n\n\n"))
+    return out
 
 
 def eng_text(rng, rules):
@@ -562,6 +612,7 @@ def gen(rng, tier):
         if c["k"] == "eng":
             text, nums = eng_text(rng, c["rules"])
             c["text"], c["lines"] = text.hex(), nums
+    cases += fixed_file_cases()
     for _ in range(70 * scale):
         cases.append(gen_file(rng))
     for which in range(4):
@@ -665,6 +716,8 @@ def fingerprint(c, o):
         return "acl-cache-visible"
     if "rejected" in why:
         return "acl-documented-rule-rejected"
+    if "assumption: generated" in why or "idna.ToUnicode" in why:
+        return "acl-name-grammar-assumption"
     if "assumption" in why:
         return "acl-ip-string-assumption"
     if "ParseTextRules" in why or c.get("k") == "file":
@@ -985,13 +1038,18 @@ LEVEL_TEXT = ("Machine-checked Coq theorems over a statement-by-statement Gallin
               "net/netip address parsers), compiledRule.Match, the matchers, compiledRuleSetImpl.Match with its decision cache and "
               "aclEngine.handle: for every rule list, every query and every history of queries, under every eviction behaviour of the "
               "cache, each answer is the outbound and hijack address of the first rule in file order whose pattern, protocol and port "
-              "range match (default when none), invariant under case and trailing dots of the name; the same for overlapping callers "
+              "range match (default when none), invariant under case and trailing dots of the name - also stated on the TEXT of a rule file "
+              "(line parser = the language of the regular expression, comments, blank lines, file order = line order, round trip with a "
+              "canonical printer), with the decision cache keyed by the modelled net.IP.String rendering (proved '|'-free and injective "
+              "modulo To4) and CIDR rules read as bit-prefix equality; the same for overlapping callers "
               "(LTS of the atomic cache sections Get / Add-of-the-final-result of any number of Match calls under every schedule). "
               "The model is tied to /repo on "
               "every run by regenerated constants and a differential run of the Go code against the model (vm_compute in the kernel) "
               "and against an independent reference evaluator and a never-queried rule set inside the harness.")
 LEVEL_NOTE = ("Trusted: Coq kernel + vm_compute; hand-written model (tie is sampled differential testing + regenerated Params); python/Go glue. "
-              "No axioms. Assumed of net.IP.String: no '|' and injective modulo To4 (hypotheses of the cache theorems, sampled by the harness). "
-              "Not modelled: geoip/geosite, idna on xn-- labels, the regexp line parser, concurrency inside golang-lru.")
+              "No axioms. net.IP.String and the rule-file parser are modelled and their properties proved (cache theorems are hypothesis-free "
+              "for the modelled rendering; first-match is stated on the text of rule files; CIDR rules have a declarative bit-prefix reading). "
+              "Not modelled: geoip/geosite, idna on xn-- labels (generator and harness enforce their absence), Go's regexp engine itself "
+              "(its language for the one pattern is transcribed), concurrency inside golang-lru.")
 TECHNIQUE = "Coq proof (invariant over lookup histories for every eviction oracle) on a hand-written model + differential correspondence check in vm_compute"
 DESIGN_REF = "DESIGN.md section 4 C09"
